@@ -1419,7 +1419,51 @@ pub fn get_random_module(&self, source: &mut GenerationSource) -> (r: Result<VfT
         &&& Generator::body_wf(chunks, t)
         &&& out.len() >= h
         &&& out.subrange(h, out.len() as int) == flat(chunks) + codes(tail) + seq![0x2eu8]
+        // C04 framing: a left-to-right lexer started right after the header visits exactly these chunk
+        // boundaries, reads exactly the recorded opcodes (body, collapse tail, STOP) and ends at the last byte
+        &&& Generator::lexes_to(out, h, chunks + singles(tail) + seq![seq![0x2eu8]], ops_of(t) + ops_of(tail) + seq![OpcodeKind::Stop])
         &&& self.same_config_but_proto(o)
+    }
+
+    pub proof fn lemma_gen_framing(out: Seq<u8>, h: int, gch: Seq<Seq<u8>>, gtr: Trace, tail: Trace, v: Version)
+        requires
+            0 <= h <= out.len(),
+            out.subrange(h, out.len() as int) == flat(gch) + codes(tail) + seq![0x2eu8],
+            Generator::body_wf(gch, gtr),
+            forall|i: int| 0 <= i < tail.len() ==> Generator::tail_op(#[trigger] tail[i].0, v),
+        ensures
+            Generator::lexes_to(out, h, gch + singles(tail) + seq![seq![0x2eu8]], ops_of(gtr) + ops_of(tail) + seq![OpcodeKind::Stop]),
+    {
+        let ca = gch + singles(tail) + seq![seq![0x2eu8]];
+        let oa = ops_of(gtr) + ops_of(tail) + seq![OpcodeKind::Stop];
+        lemma_flat_concat(gch, singles(tail));
+        lemma_flat_concat(gch + singles(tail), seq![seq![0x2eu8]]);
+        lemma_flat_singles(tail);
+        let one = seq![seq![0x2eu8]];
+        assert(one.len() == 1 && one.last() == seq![0x2eu8]);
+        assert(one.drop_last().len() == 0);
+        assert(flat(one.drop_last()) =~= Seq::<u8>::empty());
+        assert(flat(one) =~= seq![0x2eu8]);
+        assert(flat(ca) =~= flat(gch) + codes(tail) + seq![0x2eu8]);
+        assert forall|i: int| 0 <= i < ca.len() implies enc_ok(#[trigger] oa[i], ca[i]) by {
+            if i < gch.len() { assert(ca[i] == gch[i] && oa[i] == gtr[i].0); }
+            else if i < gch.len() + tail.len() {
+                let k = i - gch.len();
+                assert(ca[i] == singles(tail)[k] && oa[i] == tail[k].0);
+                assert(Generator::tail_op(tail[k].0, v));
+            }
+            else { assert(ca[i] == seq![0x2eu8] && oa[i] == OpcodeKind::Stop); }
+        }
+        lemma_framing(out, h, ca, oa);
+    }
+
+    pub open spec fn lexes_to(s: Seq<u8>, p: int, ca: Seq<Seq<u8>>, oa: Seq<OpcodeKind>) -> bool {
+        &&& ca.len() == oa.len()
+        &&& forall|i: int| 0 <= i < ca.len() ==>
+                ref_op_of_byte(s[p + offs(ca, i)]) == #[trigger] oa[i]
+                && lex_len(s, p + offs(ca, i)) == ca[i].len()
+                && p + offs(ca, i) + lex_len(s, p + offs(ca, i)) == p + offs(ca, i + 1)
+        &&& p + offs(ca, ca.len() as int) == s.len()
     }
 
 //@fn src/generator/core.rs Generator::generate_internal
@@ -1519,6 +1563,8 @@ pub fn get_random_module(&self, source: &mut GenerationSource) -> (r: Result<VfT
             assert(out.len() >= h);
             assert(out.subrange(h, out.len() as int) =~= flat(gch) + codes(tail) + seq![0x2eu8]); // @C08 @C06 @C11
             assert(self.same_config_but_proto(old(self)));
+            // framing (C04): the lexer re-discovers exactly the recorded opcodes
+            Generator::lemma_gen_framing(out, h, gch, gtr, tail, old(self).state.version);
             assert(self.gen_post(old(self), out, target_opcodes as int, use_frame, gtr, tail, gch));
         }
 //@endfn
